@@ -76,13 +76,36 @@ var codecFamilies = map[string]string{
 	"github.com/pelletier/go-toml/v2": "toml",
 }
 
-// codecOf: which codec library the function calls into (directly).
+// codecOf: which codec library the function calls into — directly, or through private helpers defined in the
+// same source file (jsonMarshalStream -> jsonEncodeStream -> encoding/json).
 func codecOf(fn *ssa.Function) map[string]bool {
 	out := map[string]bool{}
 	if fn == nil {
 		return out
 	}
-	for _, cs := range allCalls([]*ssa.Function{fn}) {
+	file := func(f *ssa.Function) string {
+		if f == nil || f.Prog == nil || !f.Pos().IsValid() {
+			return ""
+		}
+		return f.Prog.Fset.Position(f.Pos()).Filename
+	}
+	group := []*ssa.Function{fn}
+	seen := map[*ssa.Function]bool{fn: true}
+	for i := 0; i < len(group); i++ {
+		cur := append([]*ssa.Function{group[i]}, allAnon(group[i])...)
+		for _, cs := range allCalls(cur) {
+			if cs.Callee != nil && !seen[cs.Callee] && file(cs.Callee) != "" && file(cs.Callee) == file(fn) {
+				seen[cs.Callee] = true
+				group = append(group, cs.Callee)
+			}
+		}
+	}
+	var all []*ssa.Function
+	for _, g := range group {
+		all = append(all, g)
+		all = append(all, allAnon(g)...)
+	}
+	for _, cs := range allCalls(all) {
 		if cs.Callee == nil || cs.Callee.Pkg == nil {
 			if cs.Callee != nil && cs.Callee.Origin() != nil && cs.Callee.Origin().Pkg != nil {
 				if fam, ok := codecFamilies[cs.Callee.Origin().Pkg.Pkg.Path()]; ok {
@@ -281,6 +304,46 @@ func ruleC05All(p *Prog, r *Result) {
 		first := 0
 		for _, g := range pa.Guards {
 			if g.Kind == "truth" && g.A.Op == "carried" {
+				// a flag: starts true and is only ever cleared ("first"), or starts false and is only ever set ("seen one")
+				info := pt.carried[g.A.N]
+				allSrc := func(want string) bool {
+					for _, s := range info.Src {
+						if !s.IsConst(want) {
+							return false
+						}
+					}
+					return len(info.Src) > 0
+				}
+				switch {
+				case info.Init != nil && info.Init.IsConst("true") && allSrc("false"):
+					first = 1
+					if g.Neg {
+						first = -1
+					}
+				case info.Init != nil && info.Init.IsConst("false") && allSrc("true"):
+					first = -1
+					if g.Neg {
+						first = 1
+					}
+				}
+			}
+			// or the position in the stream: i > 0, i != 0, i >= 1 (later) and their negations (first)
+			if g.Kind == "cmp" && g.A != nil && g.A.Op == "idx" && g.B != nil && g.B.Op == "const" {
+				later := 0
+				switch {
+				case g.Const == ">" && g.B.Name == "0", g.Const == ">=" && g.B.Name == "1":
+					later = 1
+				case g.Const == "<" && g.B.Name == "1", g.Const == "<=" && g.B.Name == "0":
+					later = -1
+				}
+				if g.Neg {
+					later = -later
+				}
+				if later != 0 {
+					first = -later
+				}
+			}
+			if g.Kind == "eq" && g.A != nil && g.A.Op == "idx" && g.B != nil && g.B.IsConst("0") {
 				first = 1
 				if g.Neg {
 					first = -1
@@ -289,7 +352,7 @@ func ruleC05All(p *Prog, r *Result) {
 		}
 		wi, ei := -1, -1
 		for i, e := range pa.Effects {
-			if e.Callee == "(*bytes.Buffer).Write" {
+			if e.Callee == "(*bytes.Buffer).Write" || e.Callee == "(*bytes.Buffer).WriteString" {
 				wi = i
 			}
 			if strings.HasSuffix(e.Callee, ".Encode") {
